@@ -336,6 +336,8 @@ func init() {
 	registerCRC(reg)
 	registerLocalRand(reg)
 	registerTaint(reg)
+	registerCryptoModel(reg)
+	registerCodeHash(reg)
 	registerECDSA(reg)
 }
 
